@@ -75,7 +75,7 @@ func verifConservationOracle(sim *verifledger.Sim, tx *common.VersionedTransacti
 func TestVerif_C01(t *testing.T) {
 	r := verifkit.Start(t, "C01", "exploration")
 	r.SetRule("seeded ledger simulator (real BadgerStore + own genesis; states reached only by finalizing validated transactions); each candidate is a correctly signed " +
-		"deposit / transfer / withdrawal submission / mint, valid or with one amount/asset/input perturbation; the oracle re-reads every input from the store; " +
+		"deposit / transfer / withdrawal submission / mint / spend of a node-removal output, valid or with one amount/asset/input perturbation; the oracle re-reads every input from the store; " +
 		"non-trivial = distinct accepted transactions plus distinct near-misses rejected (perturbed candidates)")
 	r.Assume("snapshot timestamps are later than the genesis custodian record (earlier timestamps cannot carry a certificate)")
 	rng := r.Rand()
@@ -352,6 +352,73 @@ func TestVerif_C01(t *testing.T) {
 			}
 			w.applied(parsed, specs)
 			r.Count("finalized", 1)
+		}
+	}
+	// Outputs of a node removal are ordinary spendable XIN outputs of another output type: remove two genesis
+	// nodes, then offer their outputs to transactions of the right and of a wrong asset (both validation paths).
+	if _, _, gtxs, gerr := sim.Net.Genesis.BuildSnapshots(); gerr == nil {
+		for gi := 0; gi < 2 && gi < len(sim.Net.Signers); gi++ {
+			var acc *common.VersionedTransaction
+			for _, gt := range gtxs {
+				if len(gt.Outputs) > 0 && gt.Outputs[0].Type == common.OutputTypeNodeAccept && len(gt.Extra) >= 32 &&
+					string(gt.Extra[:32]) == string(sim.Net.Signers[gi].PublicSpendKey[:]) {
+					acc = gt
+				}
+			}
+			if acc == nil {
+				r.Count("node_removal_genesis_transaction_not_found", 1)
+				continue
+			}
+			payee := sim.Net.Payees[gi]
+			rm := verifgen.Remove(sim.Net.Signers[gi].PublicSpendKey, payee.PublicSpendKey, &payee, acc, verifgen.Seed64(fmt.Sprint("c01-remove", r.Seed, gi)), []crypto.Hash{sim.LastConsensusTx})
+			ts := sim.NextTime(uint64(1 + rng.Intn(1e9)))
+			if err := sim.Admit(rm, ts); err != nil {
+				r.Count("node_removal_rejected", 1)
+				t.Logf("node removal rejected: %v", err)
+				continue
+			}
+			if _, _, err := sim.Finalize([]*common.VersionedTransaction{rm}, ts); err != nil {
+				r.Count("node_removal_not_finalized", 1)
+				continue
+			}
+			r.Count("node_removals_finalized", 1)
+			out := verifgen.OutsOf(rm, []verifgen.OutSpec{{Owners: []common.Address{payee}}})[0]
+			ins := []*verifgen.Out{out}
+			for ci, a := range assets {
+				spec := w.spec(out.Amount, 2)
+				raw := verifgen.BuildTx(a.id, ins, []verifgen.OutSpec{spec}, nil, nil)
+				cand := verifgen.SignMap(raw, ins, [][]int{{0}})
+				kind, pert := "spend-of-node-removal-output", "none"
+				if a.id != common.XINAssetId {
+					pert = "wrong-tx-asset"
+				}
+				for _, fork := range []bool{false, true} {
+					var verr error
+					var parsed *common.VersionedTransaction
+					panicked, _, _ := verifkit.Guard(func() {
+						parsed, verr = verifgen.Reparse(cand)
+						if verr == nil {
+							verr = parsed.Validate(sim.Store, sim.NextTime(uint64(1+ci)), fork)
+						}
+					})
+					r.Eval()
+					if panicked || verr != nil {
+						if pert != "none" {
+							rejectedNear++
+							r.Nontrivial(fmt.Sprintf("reject|%s|%s|%v", kind, cand.PayloadHash(), fork))
+						}
+						r.Count("rejected_"+kind+"_"+pert, 1)
+						continue
+					}
+					accepted++
+					r.Count("accepted_"+kind, 1)
+					r.Nontrivial(fmt.Sprintf("accept|%s|%v", cand.PayloadHash(), fork))
+					if bad := verifConservationOracle(sim, parsed); bad != "" {
+						r.Violation("C01|"+kind+"|"+pert, fmt.Sprintf("accepted %s transaction (perturbation %s, fork=%v) violates conservation: %s", kind, pert, fork, bad),
+							map[string]any{"kind": kind, "perturbation": pert, "tx": fmt.Sprintf("%x", cand.Marshal()), "oracle": bad})
+					}
+				}
+			}
 		}
 	}
 	r.Note("accepted", accepted)
